@@ -635,8 +635,60 @@ var reHelperName = regexp.MustCompile(`([A-Za-z0-9_]*(?:⟨#field:funcCounter⟩
 
 // MangleRule: a helper allocated in a method is named the same way wherever the
 // method writes or returns it (inside a function: mangled everywhere or nowhere).
+// inFunctionChoice: the condition under which the back end mangles a local name, found as
+// the key of a two-way choice between a bare name and the same name behind a counter prefix
+// (f<counter>_name): whatever the converter uses to know that it is inside a function (the
+// length of a stack, a depth counter, a flag). Returns the key and the index of the mangled option.
+func inFunctionChoice(b *Backend) (string, int, bool) {
+	var found string
+	idx := -1
+	var scan func(t Tmpl)
+	scan = func(t Tmpl) {
+		for _, p := range t {
+			switch p := p.(type) {
+			case Alt:
+				if len(p.Opts) == 2 && idx < 0 && p.Cond != "" {
+					s0, s1 := p.Opts[0].String(), p.Opts[1].String()
+					m0 := strings.Contains(s0, "⟨#field:") && strings.HasSuffix(s0, s1) && s0 != s1
+					m1 := strings.Contains(s1, "⟨#field:") && strings.HasSuffix(s1, s0) && s0 != s1
+					if m0 != m1 {
+						found = p.Cond
+						if m0 {
+							idx = 0
+						} else {
+							idx = 1
+						}
+					}
+				}
+				for _, o := range p.Opts {
+					scan(o)
+				}
+			case Rep:
+				scan(p.Body)
+			case Join:
+				scan(p.Elem)
+			}
+		}
+	}
+	var names []string
+	for n := range b.X.Methods {
+		names = append(names, n)
+	}
+	sort.Strings(names)
+	for _, n := range names {
+		for _, em := range b.X.Methods[n].Emissions {
+			scan(em.T)
+		}
+	}
+	return found, idx, idx >= 0
+}
+
 func MangleRule(w *World, b *Backend, r *Result, rule string, only ...string) {
-	const inFunc = "if:len(field:funcs)>0"
+	inFunc, inIdx, okChoice := inFunctionChoice(b)
+	if !okChoice {
+		r.Bad(rule, "mangle:"+b.Role+":choice", "-", "cannot find the choice between a bare and a function-prefixed name in any template of this back end")
+		return
+	}
 	var names []string
 	for n := range b.X.Methods {
 		names = append(names, n)
@@ -650,7 +702,7 @@ func MangleRule(w *World, b *Backend, r *Result, rule string, only ...string) {
 		forms := map[string]map[string]bool{} // activation -> name stems seen (in-function view)
 		where := map[string][]string{}
 		add := func(t Tmpl, what string) {
-			s := selectCond(t, inFunc, 0).String()
+			s := selectCond(t, inFunc, inIdx).String()
 			for _, m := range reHelperName.FindAllStringSubmatch(s, -1) {
 				if forms[m[2]] == nil {
 					forms[m[2]] = map[string]bool{}
@@ -1236,8 +1288,78 @@ func PopRule(w *World, role string, r *Result, rule string, openers ...string) {
 			}
 		}
 	}
+	// nesting kept as a depth counter or a flag instead of a stack: what the closer takes back
+	// (field-1, false) the opener of the same construct must have put there (field+1, true)
+	if b, err := BuildBackend(w, role); err == nil {
+		for _, pair := range [][2]string{{"FuncStart", "FuncEnd"}, {"ForStart", "ForEnd"}, {"IfStart", "IfEnd"}} {
+			op, cl := b.X.Methods[pair[0]], b.X.Methods[pair[1]]
+			if op == nil || cl == nil {
+				continue
+			}
+			for f, vs := range cl.FieldsSet {
+				down, off := false, false
+				for _, v := range vs {
+					if strings.Contains(v, "field:"+f+"-1") {
+						down = true
+					}
+					if v == "false" {
+						off = true
+					}
+				}
+				if !down && !off {
+					continue
+				}
+				up, on := false, false
+				for _, v := range op.FieldsSet[f] {
+					if strings.Contains(v, "field:"+f+"+1") {
+						up = true
+					}
+					if v == "true" {
+						on = true
+					}
+				}
+				key := fmt.Sprintf("pop:%s:%s:%s/%s", role, f, pair[0], pair[1])
+				switch {
+				case down && up, off && on:
+					r.Ok(rule, key, w.Pos(cl.Fn.Pos()), fmt.Sprintf("%s raises %s and %s takes it back", pair[0], f, pair[1]))
+					fields = append(fields, f)
+				case down && !up:
+					r.Bad(rule, key, w.Pos(cl.Fn.Pos()), fmt.Sprintf("%s lowers the nesting counter %s but %s does not raise it", pair[1], f, pair[0]))
+					fields = append(fields, f)
+				}
+			}
+			// raised by the opener, lowered by nobody, although some other closer lowers it: unbalanced
+			for f, vs := range op.FieldsSet {
+				up := false
+				for _, v := range vs {
+					if strings.Contains(v, "field:"+f+"+1") {
+						up = true
+					}
+				}
+				if !up {
+					continue
+				}
+				loweredBySelf, loweredElsewhere := false, false
+				for n, mf := range b.X.Methods {
+					for _, v := range mf.FieldsSet[f] {
+						if strings.Contains(v, "field:"+f+"-1") {
+							if n == pair[1] {
+								loweredBySelf = true
+							} else {
+								loweredElsewhere = true
+							}
+						}
+					}
+				}
+				if loweredElsewhere && !loweredBySelf {
+					r.Bad(rule, fmt.Sprintf("pop:%s:%s:%s/%s", role, f, pair[0], pair[1]), w.Pos(op.Fn.Pos()), fmt.Sprintf("%s raises the nesting counter %s, which another method lowers, but %s does not", pair[0], f, pair[1]))
+				}
+			}
+		}
+	}
 	if len(fields) == 0 {
-		r.Bad(rule, "pop:"+role+":none", "-", "no construct stack found in the converter")
+		// nothing is kept per open construct in this back end: there is nothing a closer could leave behind
+		r.Triv(rule, "pop:"+role+":none", "-", "no construct stack, depth counter or flag found in the converter")
 	}
 }
 
